@@ -472,7 +472,7 @@ theorem C02_deref_adaptor {α β γ : Type} (cc : β → γ) (d : DView α β) (
   simp only [DView.read, e, c1]
   rfl
 
--- OPEN (not proven): FALSE on the current tree when the transformations after the adaptor are applied as the code applies them
+-- OPEN (not proven): FALSE on trees without 2003adb (probe deref_step_keeps_functor = 0) when the transformations after the adaptor are applied as the code applies them
 -- (`DView.applyCode`, adaptor outermost, a transformation that steps in x among `ts1`): known finding C02-deref-adaptor-step-drops-functor.
 --   theorem C02_deref_adaptor_code … ((colorConverted cc d).applyCode keeps dflt ts1).read m x y = cc (d.read m (phiAll ts1 d.v (x, y)) …)
 /-- the proven restriction: as the code applies them, the transformations after a colour-converting (or any other) dereference adaptor give
